@@ -303,6 +303,32 @@ where
                 acc.violate(format!("approx:{}", tname), format!("abs_diff_eq/relative_eq/ulps_eq/defaults on {} with real parts {:e}, {:e}, epsilon {:e}, max_relative {:e}: {:?} but floats give {:?}", tname, p0, q0, e1, e2, g, w), json!({"type": tname, "a_re": p0, "b_re": q0, "epsilon": e1, "max_relative": e2}));
             }
         }
+        // ulps_eq: operands k units in the last place apart, explicit max_ulps, an epsilon too small
+        // to decide: the answer must be the float answer (k <= max_ulps)
+        {
+            let base: f64 = *rng.choose(&[1.0, -2.5, 0.1, 1e-3, 123456.75, -1e10]);
+            let k = *rng.choose(&[0u32, 1, 3, 4, 5, 9, 17, 100]);
+            let max_ulps = *rng.choose(&[0u32, 1, 4, 8, 16, 64, 1000]);
+            let (p0, q0) = if T::IS_F32 {
+                let p = base as f32;
+                let q = f32::from_bits(p.to_bits() + k);
+                (p as f64, q as f64)
+            } else {
+                (base, f64::from_bits(base.to_bits() + k as u64))
+            };
+            let (p0, q0) = if rng.bool() { (p0, q0) } else { (q0, p0) };
+            let tiny = if T::IS_F32 { 1e-30 } else { 1e-200 };
+            let pa: T = build_with(&shape, &perturbed(&mut rng, &b, p0, T::IS_F32), &mut MaskAbsent::new(rng.next_u64()));
+            let qa: T = build_with(&shape, &perturbed(&mut rng, &b, q0, T::IS_F32), &mut MaskAbsent::new(rng.next_u64()));
+            let eps_d: T = build_with(&shape, &perturbed(&mut rng, &b, tiny, T::IS_F32), &mut AllPresent);
+            let (pf, qf, ef): (T::F, T::F, T::F) = (f_of::<T>(p0), f_of::<T>(q0), f_of::<T>(tiny));
+            acc.observe(&format!("ulps_eq|{}|k{}|max{}", tname, k, max_ulps), true);
+            let g = (pa.ulps_eq(&qa, eps_d.clone(), max_ulps), pa.ulps_ne(&qa, eps_d.clone(), max_ulps));
+            let w = (pf.ulps_eq(&qf, ef, max_ulps), pf.ulps_ne(&qf, ef, max_ulps));
+            if g != w {
+                acc.violate(format!("ulps_eq:{}", tname), format!("ulps_eq/ulps_ne on {} with real parts {} ulps apart and max_ulps = {}: {:?} but floats give {:?}", tname, k, max_ulps, g, w), json!({"type": tname, "a_re": p0, "b_re": q0, "k": k, "max_ulps": max_ulps}));
+            }
+        }
     }
     acc
 }
